@@ -155,8 +155,12 @@ theorem pow2_pos (w : Nat) : 0 < pow2 w := by
   unfold pow2
   exact Int.natCast_pos.mpr (Nat.pow_pos (by decide))
 
-theorem wrapU_of_inU {w : Nat} {n : Int} (h : inU w n = true) : wrapU w n = n := by
+theorem wrapU_of_inU {w : Nat} (hw : w = 8 ∨ w = 16 ∨ w = 32) {n : Int} (h : inU w n = true) :
+    wrapU w n = n := by
   simp only [inU, Bool.and_eq_true, decide_eq_true_eq] at h
-  exact Int.emod_eq_of_lt h.1 h.2
+  rcases hw with rfl | rfl | rfl <;> simp only [wrapU, cvt, pow2] at h ⊢ <;>
+    (simp only [Nat.reduceEqDiff, if_false, if_true, Nat.reduceSub, Nat.reducePow]
+     rw [if_pos (by omega)]
+     omega)
 
 end Hive.SerixJson
